@@ -38,10 +38,10 @@ Definition evpn_wf (e : evpn) : Prop :=
 Definition mup_wf (v6 : bool) (m : mup) : Prop :=
   let w := if v6 then 16 else 4 in
   match m with
-  | Mup1 rd pl a => blen rd = 8 /\ pl <= 8 * w /\ blen a = w
+  | Mup1 rd pl a => blen rd = 8 /\ pl <= 8 * w /\ (pl + 7) / 8 <= blen a /\ blen a <= w
   | Mup2 rd a => blen rd = 8 /\ blen a = w
   | Mup3 rd pl a teid qfi ep src =>
-      blen rd = 8 /\ pl <= 8 * w /\ blen a = w /\ teid < 4294967296 /\ blen ep = w /\
+      blen rd = 8 /\ pl <= 8 * w /\ (pl + 7) / 8 <= blen a /\ blen a <= w /\ teid < 4294967296 /\ blen ep = w /\
       match src with Some s => blen s = w | None => True end
   | Mup4 rd el ep teid =>
       (* the endpoint length covers the address and the leading octets of the TEID; the rest of the
